@@ -242,7 +242,9 @@ type Viol = (String, String, Value);
 // ------------------------------------------------------------------------------------------------
 
 fn ts_alphabet(thorough: bool) -> Vec<u16> {
-    let mut v: Vec<u16> = vec![0];
+    // tick spacing 0 is not in the alphabet: no pool or fee tier can have it (C19), and the manual shift-subtract division
+    // does not terminate for it once the bounds test lets a tick through (a hang is not a verdict)
+    let mut v: Vec<u16> = vec![];
     v.extend(1..=if thorough { 1100u16 } else { 130u16 });
     for k in 0..16 {
         v.push(1u16 << k);
